@@ -150,6 +150,22 @@ class Rational:
         return f"({ps(self.num)}) / ({ps(self.den)})"
 
 
+_UF_REGISTRY: list = []  # (function name, inner Rational): atoms are equal iff inner normal forms are equal
+
+
+def uf_atom(fn: str, inner: "Rational") -> dict:
+    for k, (f, r) in enumerate(_UF_REGISTRY):
+        if f == fn and r.equals(inner):
+            return _atom(f"{fn}#{k}")
+    _UF_REGISTRY.append((fn, inner))
+    return _atom(f"{fn}#{len(_UF_REGISTRY) - 1}")
+
+
+def uf_inner(atom: str):
+    fn, _, k = atom.partition("#")
+    return _UF_REGISTRY[int(k)][1] if k.isdigit() else None
+
+
 TRANSPARENT_CALLS = {"tile", "reshape", "asarray", "atleast_1d", "atleast_2d", "float64", "astype", "copy", "array"}
 UNINTERPRETED = {"sqrt", "nansum", "sum", "diff", "log", "exp", "abs", "mean"}
 
@@ -194,12 +210,140 @@ def poly(e: ast.AST, resolve=None, rename=None, _depth: int = 0) -> Rational:
             return poly(e.args[0], resolve, rename, _depth)
         if fn in UNINTERPRETED and e.args:
             inner = poly(e.args[0], resolve, rename, _depth)
-            if fn == "sqrt":
-                # sqrt(a*b) stays one atom on its canonical argument
-                return Rational(_atom(f"sqrt[{inner.canon()}]"))
-            return Rational(_atom(f"{fn}[{inner.canon()}]"))
+            return Rational(uf_atom(fn, inner))
     if isinstance(e, ast.Subscript) and isinstance(e.slice, ast.Tuple) and all(
         isinstance(x, ast.Slice) or (isinstance(x, ast.Attribute) and x.attr == "newaxis") or (isinstance(x, ast.Constant) and x.value is None) for x in e.slice.elts
     ):
         return poly(e.value, resolve, rename, _depth)  # x[:, np.newaxis] is broadcasting only
     return Rational(_atom(rename(unparse(e))))
+
+
+# ----------------------------------------------------------------------------- straight-line symbolic evaluation
+
+
+def sym_exec(stmts, *, rename=None, env=None, conds=None, skip_tests=("on_root", "logger")):
+    """Symbolically evaluate a loop-free statement list; yields (conds, env, return_expr) per path.
+    env maps names to `Rational`; If statements fork unless their test mentions a skip word.
+    conds is a list of (test source, polarity)."""
+    env = dict(env or {})
+    conds = list(conds or [])
+    rename = rename or (lambda t: t)
+
+    def resolve_env(e):
+        return None
+
+    def P(e):
+        return _poly_env(e, env, rename)
+
+    for k, st in enumerate(stmts):
+        if isinstance(st, ast.Expr):
+            continue
+        if isinstance(st, ast.Assign) and len(st.targets) == 1 and isinstance(st.targets[0], ast.Name) and isinstance(st.value, ast.IfExp):
+            for arm, pol in ((st.value.body, True), (st.value.orelse, False)):
+                e2 = dict(env)
+                e2[st.targets[0].id] = _poly_env(arm, e2, rename)
+                yield from sym_exec(stmts[k + 1 :], rename=rename, env=e2, conds=conds + [(unparse(st.value.test), pol)], skip_tests=skip_tests)
+            return
+        if isinstance(st, ast.Assign) and len(st.targets) == 1 and isinstance(st.targets[0], ast.Name):
+            env[st.targets[0].id] = P(st.value)
+            continue
+        if isinstance(st, ast.AugAssign) and isinstance(st.target, ast.Name):
+            cur = env.get(st.target.id, Rational(_atom(rename(st.target.id))))
+            v = P(st.value)
+            if isinstance(st.op, ast.Add):
+                env[st.target.id] = cur + v
+            elif isinstance(st.op, ast.Sub):
+                env[st.target.id] = cur - v
+            elif isinstance(st.op, ast.Mult):
+                env[st.target.id] = cur * v
+            elif isinstance(st.op, ast.Div):
+                env[st.target.id] = cur / v
+            else:
+                raise NotAffine("augmented assignment")
+            continue
+        if isinstance(st, ast.If):
+            t = unparse(st.test)
+            if any(w in t for w in skip_tests):
+                # logging-only branch: must not bind names that are used later
+                continue
+            yield from sym_exec(st.body + stmts[k + 1 :], rename=rename, env=env, conds=conds + [(t, True)], skip_tests=skip_tests)
+            yield from sym_exec(st.orelse + stmts[k + 1 :], rename=rename, env=env, conds=conds + [(t, False)], skip_tests=skip_tests)
+            return
+        if isinstance(st, ast.Return):
+            yield conds, env, st.value
+            return
+        if isinstance(st, ast.Raise):
+            return
+        if isinstance(st, (ast.Assign, ast.AnnAssign)):
+            continue  # tuple targets / attribute stores: not tracked
+        if isinstance(st, (ast.For, ast.While, ast.With, ast.Try)):
+            raise NotAffine(f"control flow {type(st).__name__}")
+    yield conds, env, None
+
+
+def _poly_env(e, env, rename) -> Rational:
+    def resolve(name):
+        return None
+
+    def rec(x) -> Rational:
+        if isinstance(x, ast.Name) and x.id in env:
+            return env[x.id]
+        n = _num(x)
+        if n is not None:
+            return Rational(_const(n))
+        if isinstance(x, ast.BinOp) and not isinstance(x.op, ast.Pow):
+            l, r = rec(x.left), rec(x.right)
+            if isinstance(x.op, ast.Add):
+                return l + r
+            if isinstance(x.op, ast.Sub):
+                return l - r
+            if isinstance(x.op, ast.Mult):
+                return l * r
+            if isinstance(x.op, ast.Div):
+                return l / r
+        if isinstance(x, ast.BinOp) and isinstance(x.op, ast.Pow):
+            k = _num(x.right)
+            if k is not None and k.denominator == 1 and 0 <= k <= 6:
+                base = rec(x.left)
+                out = Rational(_const(1))
+                for _ in range(int(k)):
+                    out = out * base
+                return out
+        if isinstance(x, ast.UnaryOp) and isinstance(x.op, ast.USub):
+            return -rec(x.operand)
+        if isinstance(x, ast.Call):
+            fn = (dotted(x.func) or "").split(".")[-1]
+            if isinstance(x.func, ast.Attribute) and x.func.attr in TRANSPARENT_CALLS and (dotted(x.func.value) or "").split(".")[0] not in ("np", "numpy"):
+                return rec(x.func.value)
+            if fn in TRANSPARENT_CALLS and x.args:
+                return rec(x.args[0])
+            if fn in UNINTERPRETED and x.args:
+                return Rational(uf_atom(fn, rec(x.args[0])))
+            if fn == "einsum" and len(x.args) >= 2 and isinstance(x.args[0], ast.Constant):
+                spec = x.args[0].value.replace(" ", "")
+                inner = rec(x.args[1])
+                for a in x.args[2:]:
+                    inner = inner * Rational(_atom("⊗")) * rec(a)
+                return Rational(uf_atom(f"einsum<{spec}>", inner))
+        if isinstance(x, ast.Subscript) and isinstance(x.slice, ast.Tuple) and all(
+            isinstance(s, ast.Slice) or (isinstance(s, ast.Attribute) and s.attr == "newaxis") or (isinstance(s, ast.Constant) and s.value is None) for s in x.slice.elts
+        ):
+            return rec(x.value)
+        return Rational(_atom(rename(unparse(x))))
+
+    return rec(e)
+
+
+def atoms_of(r: "Rational", _depth: int = 0, opaque=("nansum", "sum", "mean")) -> set:
+    """all atom texts of a normal form, looking through element-wise uninterpreted functions
+    (sqrt, …) but not through reductions (a scalar norm may legitimately come from the value)"""
+    out = set()
+    for p in (r.num, r.den):
+        for mono in p:
+            for a, _ in mono:
+                inner = uf_inner(a) if "#" in a and a.split("#")[0] not in opaque else None
+                if inner is not None and _depth < 6:
+                    out |= atoms_of(inner, _depth + 1, opaque)
+                else:
+                    out.add(a)
+    return out
